@@ -42,7 +42,7 @@ def cross_check(c, outs):
             want = [[Fr(k[1][1]) if x is None else x for x in row] for row in ref]
         else:
             want = ref
-        d = ca.compare(c, cells, want)
+        d = ca.compare(c, cells, want, exact=not c.get("float_stream"))
         if d:
             return "%scube %s vs %scube %s: %s" % (k[0], list(k[1]), ref_key[0], list(ref_key[1]), d)
     return None
@@ -52,7 +52,8 @@ def run(ctx):
     thorough = ctx.tier == "thorough"
     rng = ctx.rng
     ctx.rule = ("the C03 generator (aggregate x 0-3 dims x fact form/columns/dtype x weights x policy x xcube dtype x explicit/inferred "
-                "shape, hidden values NaN/inf/garbage, plus boundary-extent and zero-dimension streams), every call repeated under the "
+                "shape, hidden values NaN/inf/garbage, plus boundary-extent, zero-dimension, weight-spread (2**20..2**40 next to 0.25..7, exact) "
+                "and decimal-weights (0.9, 1.2 ...; tolerance, judged by the oracle and the cross-format comparison only) streams), every call repeated under the "
                 "six report formats NaN, (0,False), (7,False), (-3,False), (2.5,False), plain 0 on both cube types; valid_count + plain + "
                 "propagation is excluded; a case = one (call, format) literal; non-trivial when the cube has a cell with rows of which "
                 "some but not all are missing (the any/all distinction) or a cell whose valid weights sum to zero")
@@ -114,9 +115,14 @@ def run(ctx):
         for kind in ca.KINDS:
             one(ca.zero_dim_case(rng, kind), "zero-dim")
 
+    for i in range(1200 if thorough else 90):
+        one(ca.spread_case(rng), "weight-spread")
+    for i in range(1500 if thorough else 110):
+        one(ca.decimal_case(rng, absent=(i % 2 == 0)), "decimal-weights")
+
     ctx.coverage.update({"real_calls": S.calls, "calls_compared_in_coq": len(S.lits), "cubes_with_an_any_vs_all_cell": n_mixed,
                          "distribution": dict(sorted(S.dist.items()))})
-    ctx.evaluations = len(S.lits)
+    ctx.evaluations = S.calls // 2
     res = core.run_cases("c04", ca.PRELUDE, S.lits, ca.CASE_TYPE, ca.CHECK_EXPR, ca.EXPLAIN_EXPR,
                          shard_size=2000 if thorough else 150)
     ca.conclude(ctx, "C04", pr, S, res, THEOREMS, HOW)
